@@ -69,3 +69,20 @@ Print Assumptions C15_flatte_sign.
 (* non-vacuity *)
 Example C15_example : 0 < snd (BW 1 (3/2) (1/10)).
 Proof. apply bw_im_pos; lra. Qed.
+
+(* BWR_LS: the partial-width fractions (cos t0, sin t0 cos t1, ..., prod sin) are normalised for ANY number of couplings *)
+Theorem C15_bwr_ls_fractions_normalised : forall thetas, sumsq (gamma_factors thetas) = 1.
+Proof. exact gamma_factors_normalised. Qed.
+Print Assumptions C15_bwr_ls_fractions_normalised.
+(* ... and its numeric line shape times the (symbolic) denominator is the partial-width factor *)
+Theorem C15_bwr_ls_dom_reciprocal : forall doc m m0 g0 q2 q02 ls thetas d i,
+  let den := BWR_LS_den doc m m0 g0 q2 q02 ls thetas d in
+  fst den * fst den + snd den * snd den <> 0 ->
+  Cmul (BWR_LS doc m m0 g0 q2 q02 ls thetas d i) den = (nth i (ls_widths ls thetas q2 q02 d) 0, 0).
+Proof. exact bwr_ls_dom_reciprocal. Qed.
+Print Assumptions C15_bwr_ls_dom_reciprocal.
+(* the code's default (fix_bug1=False) is NOT the documented width factor: witness (open finding F6) *)
+Theorem C15_bwr_ls_default_matches_doc_refuted :
+  snd (BWR_LS_den false 2 1 1 1 1 [0%nat] [] 3) < snd (BWR_LS_den true 2 1 1 1 1 [0%nat] [] 3).
+Proof. exact bwr_ls_default_differs_from_doc. Qed.
+Print Assumptions C15_bwr_ls_default_matches_doc_refuted.
